@@ -205,13 +205,18 @@ func srvTraceOne(r *Run, round int, rng *rand.Rand) bool {
 		case sc.In <- &Rpc{Id: nextID, Header: hdr(mUnary, ""), Body: body()}:
 		case err := <-served:
 			served <- err
+		case <-time.After(2 * hangTimeout):
+			// the read loop takes nothing any more: decided below (Serve has to return all the same)
 		}
 	}
 	if !within(2*hangTimeout, func() { <-served }) {
 		if end == 2 {
 			// a failed write only ends Serve once the read loop returns, which takes a Read that honours the context
 			sc.FailRead(io.EOF)
-			<-served
+			if !within(2*hangTimeout, func() { <-served }) {
+				r.Violate("srvtrace.serve", "history", "Serve did not return after a transport write failed and the transport's Read failed as well", map[string]any{"round": round, "end": end}, goroutineDump(), nil)
+				return false
+			}
 		} else {
 			r.Violate("srvtrace.serve", "history", "Serve did not return", map[string]any{"round": round, "end": end}, goroutineDump(), nil)
 			return false
